@@ -10,6 +10,8 @@
 //  'P' parse    : [ctx][str name]                                           -> [u8 ok][vol][u8 dir][str name][str error]
 //  'L' alloc    : [u32 nsteps]{[u32 nsurf][u8 policy 1|2][u32 formatted mask]} -> per step [u8 ok][u32 n]{[u32 drive][u32 img][u32 surf][u8 formatted]}
 //  ctx = [u32 drive][u8 subvol or 0][u8 dir] ; vol = [u32 drive][u8 subvol or 0] ; str = [u32 len][bytes]
+#include <sys/prctl.h>
+#include <signal.h>
 #include <cstdio>
 #include <cstdint>
 #include <cstring>
@@ -129,6 +131,7 @@ struct DummyDrive : public DFS::AbstractDrive {
 };
 
 int main() {
+  prctl(PR_SET_PDEATHSIG, SIGKILL);   /* die with the harness process that started us */
   resfd = dup(1);
   { int nul = open("/dev/null", O_WRONLY); dup2(nul, 1); close(nul); }
   for (;;) {
